@@ -230,7 +230,8 @@ def rule_r2(facts, rep, rid="C09-R2"):
     key = f.def_ + "|other-edge"
     rec_ok = False
     for x in fb.walk(f.body):
-        if x.get("k") == "mcall" and x["name"] == "map" and any(y.get("k") == "call" and (fb.callee(y) or "").endswith("SectionExtract::extract_rec") for y in fb.walk(x)):
+        # `.map(rec).flatten()` and `.flat_map(rec)` are the same traversal
+        if x.get("k") == "mcall" and x["name"] in ("map", "flat_map") and any(y.get("k") == "call" and (fb.callee(y) or "").endswith("SectionExtract::extract_rec") for y in fb.walk(x)):
             names = []
             r = x
             ups = [m["name"] for m in chain_up(c, x)]
